@@ -123,3 +123,8 @@ Proof.
     + rewrite Nat2Z.inj_succ, Z.pow_succ_r in Hv by lia.
       split; [apply Z.div_pos; lia|]. apply Z.div_lt_upper_bound; lia.
 Qed.
+
+(* linear-time list reversal (List.rev is quadratic); equal to rev *)
+Definition frev {A} (l : list A) : list A := rev_append l [].
+Lemma frev_rev {A} (l : list A) : frev l = rev l.
+Proof. unfold frev. rewrite rev_append_rev, app_nil_r. reflexivity. Qed.
